@@ -4,8 +4,8 @@
     is trivially true of a Gallina function and says nothing about the interpreter (hash-seed dependent
     iteration over sets, unseeded generators): that part is exercised by the correspondence only
     (same scenario under different PYTHONHASHSEED, files compared). *)
-From Coq Require Import ZArith QArith List Bool.
-From Ladim Require Import Base.Num Model.Time Model.Sim Proofs.SimProofs Proofs.SimIndepProofs Proofs.SymmetryProofs.
+From Coq Require Import ZArith QArith List Bool Permutation.
+From Ladim Require Import Base.Num Model.Time Model.Sim Proofs.SimProofs Proofs.SimIndepProofs Proofs.SimPermProofs Proofs.SymmetryProofs.
 Import ListNotations.
 Open Scope Z_scope.
 
@@ -34,6 +34,18 @@ Theorem C14_particlewise : forall (V C : Type) release_at forcef cachef trackf i
   map (rview V) (recs r2) = map (rkeep V keep) (map (rview V) (recs r1)).
 Proof. exact particlewise_cold. Qed.
 Print Assumptions C14_particlewise.
+
+(** T1, reordering: if at every step the release rows are a PERMUTATION of the other set-up's rows, then at
+    every moment the two runs hold the same particles with the same values and liveness up to order (and
+    renumbering), and every record holds the same (row, values) entries up to order *)
+Theorem C14_reordering_rows : forall (V C : Type) release_at release_at' forcef cachef trackf ibmf due,
+  (forall n, Permutation (release_at n) (release_at' n)) -> forall N,
+  let r1 := cold_run V C release_at forcef cachef trackf ibmf due N in
+  let r2 := cold_run V C release_at' forcef cachef trackf ibmf due N in
+  Permutation (view V (parts r1)) (view V (parts r2)) /\
+  Forall2 (@Permutation _) (map (rrows_tv V) (recs r1)) (map (rrows_tv V) (recs r2)).
+Proof. intros V C ra ra' ff cf tf bf du H N. exact (reorder_cold V C ra ra' ff cf tf bf du H N). Qed.
+Print Assumptions C14_reordering_rows.
 
 (** T2: shifting every time of the set-up by d (a whole number of steps or not) leaves the step of every
     time, the time of every step (up to d) and the number of steps unchanged: the shifted set-up compiles
